@@ -73,6 +73,14 @@ def edge_groups():
                     out.append((kind, str(e), str(b), excl))
         for m in (1, 2, 3, 2**31, 2**32):
             out.append(("multipleOf", str(e), str(m), False))
+    # integers that binary64 cannot hold, next to a bound it can: only the exact carriers (int64, uint64, json.Number read as an
+    # integer) may carry them, and any detour through float64 shows
+    for e in (2**53, -2**53, 2**60, -2**60, 2**62):
+        for v in (e + 1, e - 1, e + 3):
+            for kind in ("maximum", "minimum"):
+                for excl in (False, True):
+                    out.append((kind, str(v), str(e), excl))
+            out.append(("multipleOf", str(v), "2", False))
     return out
 
 
@@ -99,18 +107,22 @@ def gen_groups(seed, n):
                 cases.append(dict(base, entry=rng.choice(["param", "header"]), type=tp, format=fmt))
             cases.append(dict(base, entry="schema", type=rng.choice(["number", ""])))
         # json.Number through the schema validator, with the declared type deciding the conversion
-        cases.append({"group": g, "kind": kind, "c": c, "excl": excl, "val": {"k": "jnum", "v": lit}, "entry": "schema-jnum",
-                      "type": "integer" if Fraction(lit).denominator == 1 and rng.random() < 0.5 else "number"})
+        jtypes = ["number"]
+        if Fraction(lit).denominator == 1:
+            # edge groups: the integer conversion (exact) and the number conversion (binary64) both; random groups: one of them
+            jtypes = ["integer", "number"] if g < len(edges) else [rng.choice(["integer", "number"])]
+        for jt in jtypes:
+            cases.append({"group": g, "kind": kind, "c": c, "excl": excl, "val": {"k": "jnum", "v": lit}, "entry": "schema-jnum", "type": jt})
     for i, cs in enumerate(cases):
         cs["id"] = i
     return cases
 
 
 def in_range(c):
-    """the property's quantifier: constraint within +-2^53 and exactly representable (multipleOf: <= 6 fractional digits)"""
+    """the property's quantifier: instance and constraint within +-2^53, the constraint exactly representable (multipleOf: <= 6 fractional digits)"""
     b = Fraction(c["c"])
-    if abs(b) > 2**53:
-        return False
+    if abs(b) > 2**53 or abs(Fraction(c["val"]["v"])) > 2**53:
+        return False        # instance values and constraints within +-2^53 (beyond: the tie with the model and carrier agreement only)
     if c["kind"] == "multipleOf":
         return (b * 10**6).denominator == 1
     return f64_exact(c["c"])
@@ -194,7 +206,8 @@ def run_cases(chk, binp, cases, pf_ok, pf, nfloat):
         exact = exact_verdict(c["kind"], c["c"], c["excl"], c["val"]["v"])
         groups.setdefault(c["group"], set()).add(gv)
         if gv != exact:
-            cls = classify(c, gv, exact, g)
+            # a recorded finding is a deviation the faithful model reproduces; one the model does not predict is new
+            cls = classify(c, gv, exact, g) if mver.get(r["id"]) == gv else None
             if cls is not None and cls in chk.known:
                 chk.known_hit.setdefault(cls, "%s %s%s vs %s %s via %s: Go %s, exact %s" % (
                     c["kind"], c["c"], " (exclusive)" if c["excl"] else "", c["val"]["k"], c["val"]["v"], c["entry"], gv, exact))
